@@ -36,6 +36,11 @@ static PyObject * specpart(PyObject *self, PyObject *args)
     return NULL;
   if (NULL == specin)
     return NULL;
+  /* Data are read below as C-ordered floats: take a C-contiguous view (or copy) so that
+     Fortran-ordered or strided inputs are not read from scrambled memory */
+  specin = (PyArrayObject *) PyArray_FROM_OTF((PyObject *) specin, NPY_FLOAT, NPY_ARRAY_IN_ARRAY);
+  if (NULL == specin)
+    return NULL;
 
   nk = dims[0] = PyArray_DIMS(specin)[0];
   nth = dims[1] = PyArray_DIMS(specin)[1];
@@ -51,6 +56,7 @@ static PyObject * specpart(PyObject *self, PyObject *args)
 
   // Do the calculation
   partition(spec, ipart, nk, nth, ihmax);
+  Py_DECREF(specin);
   
   
   /* Free memory, close file and return */
